@@ -4,6 +4,12 @@ import json, os
 HERE = os.path.dirname(os.path.dirname(os.path.abspath(__file__)))
 
 CHECKS = {
+ "C14": dict(level="exploration", technique="rapidcheck model-based PBT: generated session command sequences against a 128-bit big-endian integer model; every carry-chain length 0..16 constructed",
+             text="3 C incremental session types and 12 C++ cipher classes; start nonces random-prefix||FF^k for every k in 0..16; packets must equal the one-shot result under the model nonce, the public nonce field must equal the model after every command, failed C++ decrypts must not advance, set_counter/set_nonce(len 0..40) follow the documented layout.",
+             note="One-shot functions are the oracle (tied to the reference by C01/C06/C10); C++ nonces are observed only through subsequent packets.", ref="4/C14"),
+ "C20": dict(level="exploration", technique="rapidcheck PBT: decoder model from the header text + guard bytes + round trip; model-based command sequences over 4 aliased byte_array variables vs std::vector in an ASCON_NO_STL + ASan/UBSan build, one forked child per case so sanitizer aborts shrink",
+             text="Hex: every generated text/space combination must return exactly the modelled count or -1 and never write beyond the space given; C++ helpers return exactly the decoded bytes. byte_array: after every generated command all observers and all six comparisons of every pair of variables equal std::vector's.",
+             note="Indices < size() and pop_back on non-empty arrays only (std::vector preconditions). Four genuine defects were found and fixed (known_findings.json).", ref="4/C20"),
  "C07": dict(level="exploration", technique="rapidcheck PBT with generated call histories (chunk partitions, copy points, junk history + re-init, in-place flags); metamorphic oracle = the library's one-shot call",
              text="19 incremental interfaces; every generated partition of input and output (0, <rate, =rate, >rate, mixed) must give the one-shot bytes; a copy taken at a generated point (absorb or squeeze phase) must continue like its original; an object re-initialised after a generated junk history must behave like a fresh one; AEAD block calls run in place per generated mask.",
              note="Absorb and squeeze phases are not interleaved (documentation leaves it open); the one-shot functions themselves are tied to the reference by C01-C05.", ref="4/C07"),
